@@ -21,8 +21,91 @@ func anchor(p *Prog, l *Ledger, rule, name string) *ssa.Function {
 	fn := p.Fn(name)
 	if fn == nil {
 		l.Undecide(rule, name, rule+"|"+name+"|anchor", "", "anchor unresolved: function "+name+" not found in the package")
+		return nil
+	}
+	for depth := 0; depth < 3; depth++ {
+		g := thinDelegate(p, fn)
+		if g == nil {
+			break
+		}
+		fn = g
 	}
 	return fn
+}
+
+// thinDelegate: fn does nothing but call one function g of the library with its own parameters first, in order
+// (further arguments are constants or a literal it builds), and returns g's results as they are: X(a, b) defined
+// as XWithOptions(a, b, Options{}).  What a rule says about "what X does" is then said about g.
+func thinDelegate(p *Prog, fn *ssa.Function) *ssa.Function {
+	if len(fn.Blocks) != 1 {
+		return nil
+	}
+	var call *ssa.Call
+	var ret *ssa.Return
+	for _, ins := range fn.Blocks[0].Instrs {
+		switch x := ins.(type) {
+		case *ssa.Call:
+			if call != nil {
+				return nil
+			}
+			call = x
+		case *ssa.Return:
+			ret = x
+		case *ssa.Alloc, *ssa.Store, *ssa.FieldAddr, *ssa.UnOp, *ssa.Extract, *ssa.MakeInterface, *ssa.Convert, *ssa.ChangeType, *ssa.DebugRef:
+		default:
+			return nil
+		}
+	}
+	if call == nil || ret == nil {
+		return nil
+	}
+	g := call.Call.StaticCallee()
+	if g == nil || g == fn || fnPkg(g) != fnPkg(fn) || len(g.Blocks) == 0 || call.Call.IsInvoke() {
+		return nil
+	}
+	if len(call.Call.Args) < len(fn.Params) || len(g.Params) != len(call.Call.Args) {
+		return nil
+	}
+	for k, par := range fn.Params {
+		if call.Call.Args[k] != ssa.Value(par) {
+			return nil
+		}
+	}
+	for _, a := range call.Call.Args[len(fn.Params):] {
+		switch x := a.(type) {
+		case *ssa.Const:
+			// defaults only (nil, 0, false, ""): a wrapper that fixes a separator or a width is a function of its own
+			if x.Value != nil && x.Value.String() != "0" && x.Value.String() != "false" && x.Value.String() != `""` {
+				return nil
+			}
+		case *ssa.UnOp: // a literal built in fn and passed by value
+			if _, ok := x.X.(*ssa.Alloc); !ok {
+				return nil
+			}
+		case *ssa.Alloc:
+		default:
+			return nil
+		}
+	}
+	// results handed on unchanged
+	switch len(ret.Results) {
+	case 0:
+		if g.Signature.Results().Len() != 0 {
+			return nil
+		}
+	case 1:
+		if ret.Results[0] != ssa.Value(call) {
+			return nil
+		}
+	default:
+		for k, r := range ret.Results {
+			ex, ok := r.(*ssa.Extract)
+			if !ok || ex.Tuple != ssa.Value(call) || ex.Index != k {
+				return nil
+			}
+		}
+	}
+	return g
 }
 
 func isIOWriterParam(fn *ssa.Function, base string) bool {
@@ -322,7 +405,7 @@ func orderWriteBack(p *Prog, fn *ssa.Function) *ssa.Store {
 			if !ok {
 				continue
 			}
-			if sc := c.Call.StaticCallee(); sc != nil && sc.String() == "sort.SliceStable" {
+			if sc := c.Call.StaticCallee(); sc != nil && (sc.String() == "sort.SliceStable" || sc.String() == "sort.Slice") {
 				if handled, ok, _, wb := decoratedStableSort(p, fn, c, isList); handled && ok {
 					return wb
 				}
